@@ -96,7 +96,7 @@ def s1(led, rid, ctx):
 
 def s3(led, rid, ctx):
     lib = ctx.lib
-    f = lib.method("ConstraintSatisfactionSolver", "solve_internal")
+    f = __import__("lint.props.shared", fromlist=["x"]).solve_internal(lib)
     cfg = f.cfg
     props = f.calls_named("propagate")
     for c in f.calls_named("make_next_decision"):
